@@ -120,6 +120,9 @@ class TimeoutFamily:
                         for t in p['tasks']:
                             if t['nid'] == nid:
                                 task = dict(t)
+                born = [e['seq'] for e in h.creates if e['nid'] == nid]
+                if task is not None and (not born or born[0] > lo or not task.get('start_time')):
+                    task = None        # not created yet at this tick, or closed before it was ever initialised (no start time)
                 if task is not None:
                     # the state at the beginning of this tick comes from the transition trace, not from a (possibly older) dump
                     st_ = [e['new'] for e in h.states if e['nid'] == nid and e['seq'] < lo]
